@@ -441,6 +441,25 @@ def h_eq(ctx, B):
     return "eq=%s" % r
 
 
+def h_eq8(ctx):
+    """Equality across the frame classes of eight bits: plain, forward, backward and framing-error frames are
+    equal exactly when their bits are (the class and the error mark are not part of the value)."""
+    d1, d2 = ctx.fresh("d1", 0, 255), ctx.fresh("d2", 0, 255)
+    mk = [lambda d: F.Frame(8, d), lambda d: F.ForwardFrame(8, d), F.BackwardFrame, F.BackwardFrameError]
+    k1, k2 = ctx.fresh_choice("cls1", 4), ctx.fresh_choice("cls2", 4)
+    f1, f2 = mk[k1](d1), mk[k2](d2)
+    same = E.eq(d1, d2)
+    r, n = (f1 == f2), (f1 != f2)
+    ctx.prove(r is True or r is False, "== returned non-bool", key="eq8/type")
+    ctx.prove(E.iff(r, same), "== between %s and %s disagrees with (same bits)" % (type(f1).__name__, type(f2).__name__),
+              key="eq8/value:%d-%d" % (k1, k2))
+    ctx.prove(E.iff(n, E.not_(same)), "!= disagrees with (same bits)", key="eq8/ne:%d-%d" % (k1, k2))
+    g = F.Frame(len(f1), f1.as_byte_sequence)
+    ctx.prove(g == f1 and f1 == g, "a frame rebuilt from the byte sequence of a %s is not equal to it" % type(f1).__name__,
+              key="eq8/rebuild:%d" % k1)
+    return "%d-%d" % (k1, k2)
+
+
 def h_contains(ctx, B):
     b, d = _state(ctx, B)
     f = _mk(b, d)
@@ -527,6 +546,7 @@ def cases(tier):
              shard_depth=1),
         Case("pack_len", h_pack_len, {"B": B}, width=128),
         Case("eq", h_eq, {"B": B}, width=128),
+        Case("eq8", h_eq8, {}, width=64),
         Case("contains", h_contains, {"B": B}, width=128),
         Case("backward", h_backward, {}, width=64),
         Case("types", h_types, {}, width=64),
